@@ -4,7 +4,8 @@ mechanism models (Leakage.tla: self-composition over toy secrets, kept counterex
 Conformance: (1) memcheck secret taint: the secret bytes of each operation are marked undefined; any conditional jump / address
 depending on them between the markers is a CANDIDATE; (2) lock-step comparison of the literal observation the property names -
 the instruction-address and data-address sequence between the markers (valgrind lackey) for several secrets - confirms or refutes
-each candidate and is also run unconditionally on a subset (thorough: all) of the operations."""
+each candidate and is also run unconditionally on a subset (thorough: all) of the operations; (3) the same lock-step comparison on the
+NATIVE instruction stream (ptrace single-step between int3 markers, tools/stepper.c) for the AVX-512 IFMA build, which valgrind cannot run."""
 import hashlib
 import json
 import os
@@ -92,6 +93,38 @@ def lockstep(ck, binp, cid, targets, label, marker):
     return res
 
 
+def native_lockstep(ck, stepper, binp, cid, targets):
+    """single-step the native binary between the markers (tools/stepper.c) for NSEC secrets and compare the instruction-address
+    sequences; this is the only observation available for the AVX-512 IFMA build.  Returns {target: dict(steps, divergence)}"""
+    wd = os.path.join(ck.workdir, "st_" + cid)
+    os.makedirs(wd, exist_ok=True)
+    sp = os.path.join(wd, "script.ndjson")
+    write_script(sp, script(ck.rng, targets))
+
+    def one(k):
+        outp = os.path.join(wd, "win%d.ndjson" % k)
+        env = dict(os.environ, VERIF_CT_SEL=str(k), VERIF_CT_TRAP="1")
+        r = subprocess.run([stepper, outp, binp, cid, sp, os.path.join(wd, "trace%d.ndjson" % k)], env=env, stdout=subprocess.DEVNULL, stderr=subprocess.PIPE, text=True, timeout=3000)
+        if r.returncode != 0:
+            raise ToolError("stepper run failed for %s (rc=%d): %s" % (cid, r.returncode, r.stderr[-300:]))
+        return [json.loads(x) for x in open(outp)]
+    with ThreadPoolExecutor(max_workers=NSEC) as ex:
+        runs = list(ex.map(one, range(NSEC)))
+    res = {}
+    for i, t in enumerate(targets):
+        ws = [r[i] for r in runs if i < len(r)]
+        if len(ws) != NSEC:
+            raise ToolError("stepper window missing for " + t)
+        div = None
+        for k in range(1, NSEC):
+            if ws[k]["digest"] != ws[0]["digest"] or ws[k]["steps"] != ws[0]["steps"]:
+                blk = next((j for j, (a, b) in enumerate(zip(ws[0]["blocks"], ws[k]["blocks"])) if a != b), min(len(ws[0]["blocks"]), len(ws[k]["blocks"])))
+                div = dict(secret_a=0, secret_b=k, steps_a=ws[0]["steps"], steps_b=ws[k]["steps"], first_divergent_block_of_4096=blk)
+                break
+        res[t] = dict(steps=ws[0]["steps"], divergence=div)
+    return res
+
+
 def run(ck):
     quick = ck.quick()
     ck.mc("MC_Leakage", "MC_Leakage_noninterference.cfg", note="self-composition: select scan, branch-free recoding, ladder cswap, masked add-back, conditional negate", workers=4)
@@ -148,11 +181,44 @@ def run(ck):
                                  how_to_replay="VERIF_CT_SEL=<a|b> valgrind --tool=lackey --trace-mem=yes driver %s <script> <trace>" % cid))
             elif t in cands:
                 unconfirmed.append((cid, t))
+    # (3) the AVX-512 IFMA build cannot run under valgrind 3.19: its instruction-address sequence is observed natively by
+    # single-stepping between the markers (control flow only; data addresses are not observable this way).  Thorough: also the
+    # AVX2 build, as an observation of the real instruction stream that is independent of valgrind's translation.
+    native = []
+    if "avx512ifma" in open("/proc/cpuinfo").read():
+        stepper = build_stepper()
+        for b in (["v512"] if quick else ["v512", "v2"]):
+            cid = cfg_id(b)
+            binp = bins.get(cid) or build(b, True, "release", ())
+            if quick:
+                k = ck.seed % len(TARGETS)
+                subset = [TARGETS[(k + 4 * j) % len(TARGETS)] for j in range(5)]
+                for must in ("ed.mul", "ed.mul_base"):          # the operations with IFMA-specific code
+                    if must not in subset:
+                        subset.append(must)
+                subset = sorted(set(subset), key=TARGETS.index)
+            else:
+                subset = list(TARGETS)
+            res = native_lockstep(ck, stepper, binp, cid, subset + [VARTIME[1]])
+            if res[VARTIME[1]]["divergence"] is None:
+                raise ToolError("native single-step comparison is blind: the variable-time operation did not diverge")
+            for t in subset:
+                windows += NSEC
+                d = res[t]["divergence"]
+                native.append(dict(cfg=cid, target=t, instructions=res[t]["steps"], diverged=d is not None))
+                if d is not None:
+                    ck.add_violation("%s: instruction-address sequence of %s depends on the secret (native single-step)" % (cid, t),
+                                     dict(cfg=cid, target=t, divergence=d, script=os.path.join(ck.workdir, "st_" + cid, "script.ndjson"),
+                                          how_to_replay="VERIF_CT_TRAP=1 VERIF_CT_SEL=<a|b> build/stepper out.ndjson driver %s <script> <trace>" % cid))
+    else:
+        ck.assumptions.append("this CPU has no AVX-512 IFMA: the v512 build was not observed")
     ck.samples += samples[:6]
     cov = dict(evaluations=windows, distinct_nontrivial=len({(s["cfg"], s["target"]) for s in samples if s["events_between_markers"] > 0}) + len(backends) * len(TARGETS),
                memcheck_candidates=["%s:%s" % c for c in candidates], confirmed=["%s:%s" % c for c in confirmed], unconfirmed_taint_reports=["%s:%s" % c for c in unconfirmed],
                lockstep=[dict(cfg=s["cfg"], target=s["target"], events=s["events_between_markers"], diverged=s["divergence"] is not None) for s in samples],
-               not_observable=["AVX-512 IFMA code cannot run under valgrind 3.19: the v512 build is not covered by this check", "micro-architectural effects below the instruction / address level"])
+               native_single_step=native,
+               not_observable=["AVX-512 IFMA code cannot run under valgrind 3.19: for the v512 build only the instruction-address sequence (ptrace single-step) is compared, not data addresses",
+                               "micro-architectural effects below the instruction / address level"])
     ck.assumptions += ["valgrind memcheck definedness tracking (--expensive-definedness-checks=yes) and lackey traces of the x86-64 release binary built by the pinned compiler",
                        "a memcheck report is a candidate; only a divergence of the lock-step traces between two secrets is a violation", "TLC/SANY for the mechanism models"]
     return ck.finish(rule="one window = one (operation, build, secret) execution between the two markers; memcheck: every operation of the policy x build with the secret marked undefined; "
